@@ -200,9 +200,18 @@ template<class T, class A> T conv(A const& a)
     constexpr int D = cnl::digits_v<A>;
     ctx->hint.clear();
     ctx->has_model = false;
+    if constexpr (s > 0 && s < D) {
+        // elastic >> s of a negative value whose floor is exactly -2^(D-s) leaves elastic_integer<D-s> (KF-C05-01); inside a
+        // saturated static_number the intermediate is clamped to -(2^(D-s)-1) without a signal
+        if (ctx->tags.overflow == 0 && !ctx->over && ctx->want == -xpow2((unsigned)(D - s))) {
+            ctx->model = ctx->want + X::from_u(1);
+            ctx->has_model = true;
+            ctx->hint = "conv_result_minus_2^(D-s)_clamped_in_source_digits";
+        }
+    }
     if constexpr (s > 0) {
         if (s >= D) ctx->hint = "conv_shift_ge_source_digits";
-        else if (ctx->tags.rounding == 1 || ctx->tags.rounding == 2) {
+        else if (!ctx->has_model && (ctx->tags.rounding == 1 || ctx->tags.rounding == 2)) {
             // the rounding bias is added in the source's digits: under saturation it clamps instead of carrying
             X x = deepval(a), half = xpow2((unsigned)(s - 1)), lim = xpow2((unsigned)D) - X::from_u(1);
             X biased = (ctx->tags.rounding == 1 && x.neg) ? x - half : x + half;
